@@ -99,7 +99,11 @@ def ev_rvalue(r, st):
             except Exception:
                 return UNK
         if a and b and (a[0] in SYMBOLIC or b[0] in SYMBOLIC):
-            return ("app", ("fn", "op:" + r["op"]), (a, b))
+            op = r["op"]
+            if op.endswith("WithOverflow"):
+                # (value, overflowed?) pair; the value is the plain operation
+                return ("tuple", (("app", ("fn", "op:" + op[:-len("WithOverflow")]), (a, b)), UNK))
+            return ("app", ("fn", "op:" + op), (a, b))
         return UNK
     if k == "agg":
         vals = tuple(ev_op(o, st) for o in r["ops"])
@@ -126,7 +130,8 @@ def ev_rvalue(r, st):
         return ev_place(r["p"], st)
     if k == "cast":
         v = ev_op(r["o"], st)
-        return v if v and v[0] == "c" else UNK
+        # numeric casts are transparent for shape checks (width is checked separately)
+        return v if v and (v[0] == "c" or v[0] in SYMBOLIC) else UNK
     return UNK
 
 
